@@ -85,6 +85,8 @@ def child_obs(run, basename):
 def run_shard(spec):
     sh = Shard(max_per_sig=3)
     r = random.Random("c16/%s/%d" % (spec["seed"], spec["shard"]))
+    if spec.get("full", 0) > 1 and len(DIMS[4]) < 6:
+        DIMS[4].extend(THOROUGH_R)          # thorough tier: more -R words
     tmp = tempfile.mkdtemp(prefix="nv_c16_")
     try:
         files = []
